@@ -100,12 +100,15 @@ def tool_matrix(full):
     m["c"] = [
         ("gcc-c11", ["gcc", "-x", "c", "-std=c11"] + cflags + ["-Wno-stringop-overflow"]),
         ("clang-c11", ["clang", "-x", "c", "-std=c11"] + cflags),
+        ("gcc-c11-use", ["gcc", "-x", "c", "-std=c11"] + cflags + ["-Wno-stringop-overflow"]),
         ("g++-c++14-externC", ["g++", "-x", "c++", "-std=c++14"] + cincxx),
         ("clang++-c++17-externC", ["clang++", "-x", "c++", "-std=c++17"] + cincxx + ["-Wno-zero-as-null-pointer-constant"]),
     ]
     if full:
         m["c"] += [
             ("g++-c++20-externC", ["g++", "-x", "c++", "-std=c++20"] + cincxx),
+            ("clang-c11-use", ["clang", "-x", "c", "-std=c11"] + cflags),
+            ("g++-c++14-externC-use", ["g++", "-x", "c++", "-std=c++14"] + cincxx),
             ("clang++-c++14-externC", ["clang++", "-x", "c++", "-std=c++14"] + cincxx + ["-Wno-zero-as-null-pointer-constant"]),
         ]
     for cfg, std in CXX_STD.items():
@@ -627,6 +630,14 @@ def strop_groups(lang, opts, sset):
     return res
 
 
+_DEF = re.compile(r"^[ \t]*#[ \t]*define[ \t]+([A-Za-z_]\w*)[ \t]+(\S.*)$", re.M)
+
+
+def own_macros(text):
+    """object-like macros with a body that this header defines itself (include guards have no body, function-like ones a '(')"""
+    return [m.group(1) for m in _DEF.finditer(text)]
+
+
 def first_diag(text, strip):
     text = text.replace(strip, "")
     lines = [ln for ln in text.splitlines() if ln.strip()]
@@ -757,8 +768,17 @@ def _process_set(job):
                         continue
                     if "/support/" in rel and not job.get("compile_support"):
                         continue  # identical in every set (depends on the configuration only): compiled once, by the design probe
-                    tu.write_text('#include "%s"\n' % rel)
+                    macros = None
                     for tid, argv in tools:
+                        if tid.endswith("-use"):
+                            # C constants are object-like macros: their literals are only diagnosed where they are expanded
+                            if macros is None:
+                                macros = own_macros((out / rel).read_text(errors="replace"))
+                            if not macros:
+                                continue
+                            tu.write_text('#include "%s"\nstatic inline void c06_use_(void)\n{\n%s}\n' % (rel, "".join("    (void) (%s);\n" % m for m in macros)))
+                        else:
+                            tu.write_text('#include "%s"\n' % rel)
                         p = subprocess.run(argv + ["-fsyntax-only", "-I", str(out), str(tu)], stdout=subprocess.PIPE, stderr=subprocess.STDOUT,
                                            text=True, errors="replace", timeout=600)
                         ev.append({"ev": "compile", "file": cps(rel), "tool": tid, "std": tid.split("-", 1)[1], "rc": p.returncode,
@@ -806,7 +826,7 @@ def diag_class(diag):
 
 def target_of(cfg, tool):
     if cfg == "c":
-        return "c-in-c++" if "externC" in tool else "c"
+        return ("c-in-c++" if "externC" in tool else "c") + ("-macro-use" if tool.endswith("-use") else "")
     return "cpp" if cfg.startswith("cpp") else cfg
 
 
@@ -1076,7 +1096,7 @@ def run(ctx):
     # the flag set itself must be accepted silently by every tool on an empty header (else the flags are the problem: machinery)
     probe_dir = ctx.scratch / "flagprobe"
     probe_dir.mkdir()
-    (probe_dir / "e.h").write_text("#ifndef E_H\n#define E_H\n#endif\n")
+    (probe_dir / "e.h").write_text("#ifndef E_H\n#define E_H\ntypedef int e_h_t;\n#endif\n")
     (probe_dir / "tu.src").write_text('#include "e.h"\n')
     for cfg, lst in tools.items():
         for tid, argv in lst:
@@ -1093,6 +1113,11 @@ def run(ctx):
 
     camp = Campaign(ctx)
     omodes = ["ser", "omit"]
+    # the support files are the same in every set (they depend on the configuration only): compiled alone here, once per tool
+    sup = {"id": "s-support", "roots": ["sp"], "files": {"sp/P.1.0.dsdl": "uint8 a\n@sealed\n"}, "meta": {"src": "support", "key": "support"}}
+    sjob = mkjob(ctx, sup, [(cfg, m) for cfg in ALL_CFGS for m in omodes], tool_matrix(full=True))
+    sjob["compile_support"] = True
+    camp.add(sup, run_jobs(ctx, [sjob])[0])
 
     # ---- 2. spec -> code: worlds of the model
     worlds = emit_worlds(ctx, design)
